@@ -57,12 +57,10 @@ theorem gen_alpha_to_index_term (i : Nat) (c : Char) :
 theorem gen_index_to_alpha_step (v : Nat) :
     index_to_alpha_step v = some (if v / 26 = 0 then none else some (v / 26 - 1)) := by
   unfold index_to_alpha_step
-  split
-  · rename_i h; simp [h]
-  · rename_i n h
-    have hn : ¬ v / 26 = 0 := fun e => h e
-    have h1 : 1 ≤ v / 26 := by omega
-    simp [usub_bind, guardO_true _ _ h1, hn]
+  by_cases h : v / 26 = 0
+  · simp [h, usub]
+  · obtain ⟨k, hk⟩ : ∃ k, v / 26 = k + 1 := ⟨v / 26 - 1, by omega⟩
+    simp [hk, usub]
 
 /-- the digit of `index_to_alpha`: `BASE_CHAR_CODE + (v % 26)` is the code of the model's `letter v` -/
 theorem gen_index_to_alpha_digit (v : Nat) : Char.ofNat (index_to_alpha_digit v) = letter v := by
@@ -77,5 +75,175 @@ theorem gen_alphaRev_step (v : Nat) :
        | _ => []) := by
   rw [alphaRev, gen_index_to_alpha_step, gen_index_to_alpha_digit]
   by_cases h : v / 26 = 0 <;> simp [h]
+
+/-! ## the whole functions: `alpha_to_index`, `index_to_alpha`, `string_from_column_index`
+
+  The closures are lifted into definitions of their own by the translator; each is proved equal to a fixed specification
+  (`termSpec`, `stepSpec`, `digitSpec`), and the skeleton (`to_uppercase().chars().rev().enumerate().map(..).sum()`;
+  `successors(..).map(..).collect().into_iter().rev().map(char::from_u32 .. unwrap).collect()`) is related to the hand
+  model once and for all, over these specifications. -/
+
+def termSpec (i : Nat) (c : Char) : Option Nat := if i < 3 ∧ 65 ≤ c.toNat then some (26 ^ i * (c.toNat - 65 + 1)) else none
+
+theorem gen_alpha_to_index_closure (i : Nat) (c : Char) : alpha_to_index_closure_0 i c = termSpec i c := by
+  unfold alpha_to_index_closure_0 termSpec
+  have hA : Char.toNat 'A' = 65 := by decide
+  by_cases hc : 65 ≤ c.toNat
+  · match i with
+    | 0 => simp [usub, rt_index, hA, hc] <;> omega
+    | 1 => simp [usub, rt_index, hA, hc] <;> omega
+    | 2 => simp [usub, rt_index, hA, hc] <;> omega
+    | n + 3 =>
+      have h3 : ¬ (n + 3 < 3) := by omega
+      simp [usub, rt_index, hA, hc, h3]
+  · simp [usub, rt_index, hA, hc]
+
+/-- the skeleton of `alpha_to_index` over the specified term: the sum of the terms of the enumerated characters is the
+    model's accumulation `go`, and it is defined iff there are at most three characters left and none is below `'A'` -/
+theorem mapM_terms (l : List Char) : ∀ (i acc : Nat),
+    (rt_mapM (fun x : Nat × Char => termSpec x.1 x.2) (rt_enumerate_from i l)).map (fun t => acc + t.sum) =
+      if (l.length = 0 ∨ i + l.length ≤ 3) ∧ (∀ c ∈ l, 65 ≤ c.toNat) then some (alphaToIndex.go l i acc) else none := by
+  induction l with
+  | nil => intro i acc; simp [rt_enumerate_from, rt_mapM, alphaToIndex.go]
+  | cons c l ih =>
+    intro i acc
+    simp only [rt_enumerate_from, rt_mapM, alphaToIndex.go]
+    by_cases hc : i < 3 ∧ 65 ≤ c.toNat
+    · have ht : termSpec i c = some (26 ^ i * (c.toNat - 65 + 1)) := by simp [termSpec, hc]
+      have e : ∀ t : List Nat, acc + (26 ^ i * (c.toNat - 65 + 1) :: t).sum = (acc + 26 ^ i * (c.toNat - 65 + 1)) + t.sum := by
+        intro t; simp [List.sum_cons]; omega
+      simp only [ht, Option.bind_some, Option.map_map, Function.comp_def, e]
+      rw [ih (i + 1) (acc + 26 ^ i * (c.toNat - 65 + 1))]
+      have hl : ((l.length = 0 ∨ i + 1 + l.length ≤ 3) ∧ ∀ c ∈ l, 65 ≤ c.toNat) ↔
+          (((c :: l).length = 0 ∨ i + (c :: l).length ≤ 3) ∧ ∀ d ∈ c :: l, 65 ≤ d.toNat) := by
+        simp only [List.length_cons, List.mem_cons, forall_eq_or_imp]
+        constructor
+        · rintro ⟨h1, h2⟩; exact ⟨by omega, hc.2, h2⟩
+        · rintro ⟨h1, _, h2⟩; exact ⟨by omega, h2⟩
+      by_cases hh : (l.length = 0 ∨ i + 1 + l.length ≤ 3) ∧ ∀ c ∈ l, 65 ≤ c.toNat
+      · rw [if_pos hh, if_pos (hl.1 hh)]
+      · rw [if_neg hh, if_neg (fun h => hh (hl.2 h))]
+    · have ht : termSpec i c = none := by simp [termSpec, hc]
+      have hn : ¬ (((c :: l).length = 0 ∨ i + (c :: l).length ≤ 3) ∧ ∀ d ∈ c :: l, 65 ≤ d.toNat) := by
+        simp only [List.length_cons, List.mem_cons, forall_eq_or_imp]
+        rintro ⟨h1, h2, _⟩; exact hc ⟨by omega, h2⟩
+      rw [if_neg hn, ht]
+      rfl
+
+/-- the two panic conditions of the model, in the form the skeleton lemma produces them -/
+theorem alpha_cases (u : List Char) :
+    (if (u.reverse.length = 0 ∨ u.reverse.length ≤ 3) ∧ (∀ c ∈ u, 65 ≤ c.toNat) then some (alphaToIndex.go u.reverse 0 0) else none) =
+      resToOpt (if u.length > 3 then Res.panic else if u.any (fun c => decide (c.toNat < 65)) = true then Res.panic
+                else Res.ok (alphaToIndex.go u.reverse 0 0)) := by
+  simp only [List.length_reverse]
+  by_cases h3 : u.length > 3
+  · have hn : ¬ ((u.length = 0 ∨ u.length ≤ 3) ∧ ∀ c ∈ u, 65 ≤ c.toNat) := fun hh => by omega
+    rw [if_neg hn, if_pos h3]; rfl
+  · rw [if_neg h3]
+    by_cases ha : u.any (fun c => decide (c.toNat < 65)) = true
+    · have hn : ¬ ((u.length = 0 ∨ u.length ≤ 3) ∧ ∀ c ∈ u, 65 ≤ c.toNat) := by
+        rintro ⟨_, hall⟩
+        obtain ⟨c, hc, hlt⟩ := List.any_eq_true.1 ha
+        have := hall c hc
+        simp at hlt; omega
+      rw [if_neg hn, if_pos ha]; rfl
+    · have hp : (u.length = 0 ∨ u.length ≤ 3) ∧ ∀ c ∈ u, 65 ≤ c.toNat := by
+        refine ⟨by omega, fun c hc => ?_⟩
+        by_cases hlt : c.toNat < 65
+        · exact absurd (List.any_eq_true.2 ⟨c, hc, by simpa using hlt⟩) ha
+        · omega
+      rw [if_pos hp, if_neg ha]; rfl
+
+/-- `alpha_to_index` as it is in the source — `to_uppercase().chars().rev().enumerate().map(term).sum::<u32>()` — is the
+    model's `alphaToIndex`, for every text (`to_uppercase` on its documented ASCII domain): the same value, and a panic
+    (more than three characters: index out of bounds; a character below `'A'`: `u32` underflow) exactly where the model says -/
+theorem gen_alpha_to_index (s : List Char) : alpha_to_index s = resToOpt (alphaToIndex s) := by
+  unfold alpha_to_index alphaToIndex
+  simp only [gen_alpha_to_index_closure]
+  have h := mapM_terms (List.reverse (rt_to_uppercase s)) 0 0
+  simp only [Nat.zero_add, List.mem_reverse] at h
+  have e : ∀ o : Option (List Nat), (Option.bind o fun t => some (List.sum t)) = o.map (fun t => t.sum) := by
+    intro o; cases o <;> rfl
+  rw [e, rt_enumerate, h]
+  simp only [rt_to_uppercase]
+  exact alpha_cases _
+
+def stepSpec (v : Nat) : Option (Option Nat) := some (if v / 26 = 0 then none else some (v / 26 - 1))
+def digitSpec (v : Nat) : Nat := 65 + v % 26
+
+theorem gen_index_to_alpha_closure_0 (v : Nat) : index_to_alpha_closure_0 v = stepSpec v := by
+  unfold index_to_alpha_closure_0 stepSpec
+  by_cases h : v / 26 = 0
+  · simp [h, usub]
+  · obtain ⟨k, hk⟩ : ∃ k, v / 26 = k + 1 := ⟨v / 26 - 1, by omega⟩
+    simp [hk, usub]
+
+theorem gen_index_to_alpha_closure_1 (v : Nat) : index_to_alpha_closure_1 v = digitSpec v := by
+  unfold index_to_alpha_closure_1 digitSpec
+  simp [show Char.toNat 'A' = 65 from by decide]
+
+theorem gen_index_to_alpha_closure_2 (n : Nat) : index_to_alpha_closure_2 n = rt_char_from_u32 n := by
+  unfold index_to_alpha_closure_2
+  cases rt_char_from_u32 n <;> rfl
+
+/-- the values `successors` produces from `v`: termination measure = the value (`v / 26 - 1 < v`) -/
+def succList (v : Nat) : List Nat := if v / 26 = 0 then [v] else v :: succList (v / 26 - 1)
+termination_by v
+decreasing_by omega
+
+/-- the fuel-bounded unfold never runs out of fuel when the fuel exceeds the first value -/
+theorem successors_fuel (v : Nat) : ∀ fuel, v < fuel → rt_successors_fuel stepSpec fuel v = some (succList v) := by
+  induction v using Nat.strongRecOn with
+  | ind v ih =>
+    intro fuel hf
+    match fuel, hf with
+    | fuel + 1, hf =>
+      rw [succList]
+      by_cases h : v / 26 = 0
+      · simp [rt_successors_fuel, stepSpec, h]
+      · have hlt : v / 26 - 1 < v := by omega
+        simp [rt_successors_fuel, stepSpec, h, ih (v / 26 - 1) hlt fuel (by omega)]
+
+theorem succList_letters (v : Nat) : (succList v).map (fun x => Char.ofNat (digitSpec x)) = alphaRev v := by
+  induction v using Nat.strongRecOn with
+  | ind v ih =>
+    rw [succList, alphaRev]
+    by_cases h : v / 26 = 0
+    · simp [h, digitSpec, letter]
+    · have hlt : v / 26 - 1 < v := by omega
+      simpa [h, digitSpec, letter] using ih _ hlt
+
+theorem mapM_chars (l : List Nat) :
+    rt_mapM rt_char_from_u32 (l.map digitSpec) = some (l.map (fun x => Char.ofNat (digitSpec x))) := by
+  induction l with
+  | nil => rfl
+  | cons a l ih =>
+    have hv : (digitSpec a).isValidChar := by
+      unfold digitSpec Nat.isValidChar; left; omega
+    simp [rt_mapM, rt_char_from_u32, hv, ih]
+
+/-- `index_to_alpha` as it is in the source — the assertion, `successors(Some(index - 1), step)`, the digit map, the
+    reversal and `char::from_u32(..).unwrap()` — is the model's `indexToAlpha?`, for every index: the letters for
+    `index ≥ 1`, a panic for 0; the unfold never runs out of fuel and no `unwrap` fails -/
+theorem gen_index_to_alpha (n : Nat) : index_to_alpha n = indexToAlpha? n := by
+  unfold index_to_alpha indexToAlpha?
+  simp only [gen_index_to_alpha_closure_0, gen_index_to_alpha_closure_1, gen_index_to_alpha_closure_2]
+  by_cases h : n ≥ 1
+  · have h1 : 1 ≤ n := h
+    have hs : rt_successors (fun x => stepSpec x) (some (n - 1)) = some (succList (n - 1)) :=
+      successors_fuel (n - 1) _ (by omega)
+    have hm : rt_mapM (fun x => rt_char_from_u32 x) (List.reverse (List.map (fun x => digitSpec x) (succList (n - 1)))) =
+        some ((alphaRev (n - 1)).reverse) := by
+      rw [← List.map_reverse]
+      exact (mapM_chars _).trans (by rw [List.map_reverse, succList_letters])
+    simp [h, usub_bind, guardO, hs, hm]
+  · simp [h]
+
+/-- `string_from_column_index` as it is in the source (its own assertion, then `index_to_alpha`) -/
+theorem gen_string_from_column_index (n : Nat) : string_from_column_index n = indexToAlpha? n := by
+  unfold string_from_column_index
+  rw [gen_index_to_alpha]
+  unfold indexToAlpha?
+  by_cases h : n ≥ 1 <;> simp [h]
 
 end Umya.Gen
